@@ -150,6 +150,17 @@ let run (id : string) (_hdr : string list) (lines : string list list) (out : str
             done;
             pr (Printf.sprintf "F n=%d ok=%d manifest=%d config=%d digest=%08x" (8 * n) !n_ok !n_man !n_cfg
                   (!crc lxor 0xFFFFFFFF)))
+       | ["open"] when (match load !dir with
+                        | Ok c ->
+                          let inside b =
+                            let t = str_of_bytes b in
+                            Stdlib.String.length t >= 3 && Stdlib.String.sub t 0 3 = "$R/" in
+                          not (inside c.c_wal_dir && inside c.c_sst_dir)
+                        | Err _ -> false) ->
+         (* harness safety rule: an engine whose stored directories lie outside the scratch
+            root (a tampered path) is never opened *)
+         eng := None;
+         pr "O unsafe-dirs"
        | ["open"] ->
          let (res, d') = open_db dflt !dir in
          dir := d';
